@@ -481,6 +481,17 @@ func (pc *PathConds) Requires(b *ssa.BasicBlock, pred func(Lit) bool) bool {
 	return true
 }
 
+// EdgeRequires is Requires for the control-flow edge pred -> succ (the path condition of
+// pred strengthened by the branch literal of that edge).
+func (pc *PathConds) EdgeRequires(pred, succ *ssa.BasicBlock, p func(Lit) bool) bool {
+	if iff, ok := pred.Instrs[len(pred.Instrs)-1].(*ssa.If); ok && pred.Succs[0] != pred.Succs[1] {
+		if p(Lit{Cond: iff.Cond, Val: pred.Succs[0] == succ}) {
+			return true
+		}
+	}
+	return pc.Requires(pred, p)
+}
+
 // ---------- misc CFG ----------
 
 // ReachableAvoiding reports whether 'to' is reachable from 'from' without entering any block in avoid.
